@@ -375,3 +375,33 @@ pub fn replay(spec: &Spec, events: &[Ev], completed: bool) -> Result<u64, String
     }
     Ok(steps)
 }
+
+// -------------------------------------------------------------------------------------------------
+// Cross-check of the hand-rolled BFS: the same transition function explored by stateright.
+impl stateright::Model for Spec {
+    type State = State;
+    type Action = Act;
+    fn init_states(&self) -> Vec<State> {
+        vec![self.init()]
+    }
+    fn actions(&self, s: &State, out: &mut Vec<Act>) {
+        out.extend(self.enabled(s));
+    }
+    fn next_state(&self, s: &State, a: Act) -> Option<State> {
+        self.step(s, a).ok()
+    }
+    fn properties(&self) -> Vec<stateright::Property<Self>> {
+        vec![
+            stateright::Property::<Self>::always("no deadlock: a state without enabled action is final", |m, s| !m.enabled(s).is_empty() || m.is_final(s)),
+            stateright::Property::<Self>::always("no classified contig is lost", |m, s| (s.batched as usize) <= m.contigs),
+        ]
+    }
+}
+
+/// (unique states, violated property names) according to stateright's BFS checker
+pub fn stateright_check(spec: &Spec, threads: usize) -> (u64, Vec<String>) {
+    use stateright::{Checker, Model};
+    let checker = spec.clone().checker().threads(threads.max(1)).spawn_bfs().join();
+    let bad: Vec<String> = checker.discoveries().keys().map(|k| k.to_string()).collect();
+    (checker.unique_state_count() as u64, bad)
+}
